@@ -242,6 +242,20 @@ Proof.
   exists z. split; [exact E|eapply lb_remove_in; exact Hz].
 Qed.
 
+Lemma lb_pos_find l h k c : (lb_pos l h k c = None <-> lb_find l h k = None).
+Proof.
+  revert c. induction l as [|x l IH]; intros c; cbn [lb_pos lb_find]; [tauto|].
+  destruct (matches h k x); [split; discriminate|apply IH].
+Qed.
+
+Lemma lb_pos_bound l h k c p : lb_pos l h k c = Some p -> c <= p < c + Z.of_nat (length l).
+Proof.
+  revert c. induction l as [|x l IH]; intros c; cbn [lb_pos length]; [discriminate|].
+  destruct (matches h k x).
+  - intros [= <-]. lia.
+  - intros H. apply IH in H. lia.
+Qed.
+
 Section Hash.
 Variable khash : N -> N.
 
@@ -310,20 +324,6 @@ Proof.
     + rewrite !lookup_cons. destruct (N.eqb_spec k' k) as [Ek|Ne]; [subst k'|].
       * destruct (N.eqb_spec (nk x) k); [contradiction|]. rewrite IH. reflexivity.
       * destruct (nk x =? k')%N; [reflexivity|]. rewrite IH. reflexivity.
-Qed.
-
-Lemma lb_pos_find l h k c : (lb_pos l h k c = None <-> lb_find l h k = None).
-Proof.
-  revert c. induction l as [|x l IH]; intros c; cbn [lb_pos lb_find]; [tauto|].
-  destruct (matches h k x); [split; discriminate|apply IH].
-Qed.
-
-Lemma lb_pos_bound l h k c p : lb_pos l h k c = Some p -> c <= p < c + Z.of_nat (length l).
-Proof.
-  revert c. induction l as [|x l IH]; intros c; cbn [lb_pos length]; [discriminate|].
-  destruct (matches h k x).
-  - intros [= <-]. lia.
-  - intros H. apply IH in H. lia.
 Qed.
 
 End Hash.
